@@ -62,6 +62,14 @@ CLAIMED["C06"] = (
     "changes nothing, incl. group_nearby_members; EMA rows with a null key get NaN and touch no state; N<=4,G<=2 (quick), N<=6,G<=3 (thorough)",
     "NumPy/numba models; multi-key null propagation and chunk-local null codes are decided under C02/C13", "DESIGN.md 4 C06")
 
+CLAIMED["C03"] = (
+    "relational: numba.group_*(n_threads=2..4), every completion order of the thread-pool tasks (3!, 4!), every chunk layout of the values, and "
+    "GroupBy reductions/count_ikey on chunked keys with per-chunk dictionaries and pointer tables (1 and 2 value columns, boolean and slice masks) "
+    "all equal the single-thread contiguous run of the same real code, for every code sequence/value/null placement; the largest thread count "
+    "the public API can choose is probed from the real expressions at the 1,000,000-row switch-over; N<=4,G<=2 (quick), N<=6,G<=3 (thorough)",
+    "concurrent.futures model (orders enumerated); chunked states constructed directly; exact arithmetic; real thread scheduling and the "
+    "pandas/pyarrow factorizers outside", "DESIGN.md 4 C03")
+
 NOT_APPLICABLE = {
     "C11": "labelling/order/shape are decided entirely by pandas Index/MultiIndex/DataFrame operations (C extension semantics); nothing symbolic to quantify over within reach of the encoder (DESIGN.md 5)",
     "C14": "margins and crosstab are reindex/groupby(level)/concat/unstack on pandas objects; not encodable (DESIGN.md 5)",
